@@ -993,6 +993,15 @@ impl Thread {
         )
     }
 
+    /// Looks at the values on the value stack (bottom first) without rooting or copying them
+    #[cfg(gluon_verif)]
+    pub fn verif_with_stack(&self, mut f: impl FnMut(Variants)) {
+        let context = self.owned_context();
+        for value in context.stack.get_values() {
+            f(Variants::new(value))
+        }
+    }
+
     #[cfg(gluon_verif)]
     pub fn verif_addr(&self) -> usize {
         self as *const Thread as *const () as usize
